@@ -18,7 +18,7 @@ ASSUMPTIONS = ["spines headed by a source of function type (`- x`) or by a param
 
                "part (b): with the minimal switches the graph of the expansion is also compared with the model (Tfv/Model/GraphAbs.lean, abstractions in "
                "argument position); with the default switches it is implementation vs independent specification only"]
-TRUSTED = ["the independent data-flow construction `flow_graph` below (oracle)", "harness/iso.py (exact graph isomorphism; rdflib.compare.isomorphic only as a fast path for positive answers)"]
+TRUSTED = ["the independent data-flow construction `flow_graph` below (oracle)", "harness/iso.py (exact graph isomorphism by individualisation-refinement; rdflib.compare is not used)"]
 
 
 def flow_graph(expr, lang):
